@@ -303,7 +303,63 @@ fn position(name: &str, a: &[String]) -> Option<String> {
     Some(out)
 }
 
+
+/// `roundtrip.run <seed> <n> <index price> <short token price>`: on the model crate's own `TestMarket<u128, 20>`, after a pseudo-random
+/// warm-up of other positions (so that the open interest is skewed and price impact is not zero), `n` times: open a fresh position
+/// (random side, collateral token, size, collateral) and close it in full at the SAME prices with no time passing (on a copy of the
+/// market, so every trial starts from the same state). Output per trial: `<side> <collateral long?> <collateral in> <size> |
+/// <output amount> <secondary output amount> <output is long?> <secondary is long?> | <claimable for user: output, secondary> |
+/// <claimable funding long, short> | <prices: index, long, short>;`. The oracle (value out <= value in + rounding) is on the Python side.
+fn roundtrip(name: &str, a: &[String]) -> Option<String> {
+    use gmsol_model::action::decrease_position::DecreasePositionFlags;
+    use gmsol_model::price::Prices;
+    use gmsol_model::test::{TestMarket, TestPosition};
+    use gmsol_model::{LiquidityMarketMutExt, MarketAction, PositionMutExt, PositionState};
+    if name != "run" { return None; }
+    const UNIT: u128 = 100_000_000_000_000_000_000;
+    let mut seed: u64 = a[0].parse().ok()?;
+    let n: usize = a[1].parse().ok()?;
+    let index: u128 = a[2].parse().ok()?;
+    let tokp: u128 = a[3].parse().ok()?;
+    let mut rnd = move || { seed = seed.wrapping_mul(6364136223846793005).wrapping_add(1442695040888963407); (seed >> 33) as u128 };
+    let mut market = TestMarket::<u128, 20>::default();
+    let prices = Prices::new_for_test(index, index, tokp);
+    if let Err(e) = market.deposit(10_000_000 * UNIT / index.max(1) + 1, 0, prices).and_then(|a| a.execute()) { return Some(format!("SETUP-ERR {e}")); }
+    if let Err(e) = market.deposit(0, 10_000_000 * UNIT / tokp.max(1) + 1, prices).and_then(|a| a.execute()) { return Some(format!("SETUP-ERR {e}")); }
+    // warm-up: a few other positions
+    let mut others: Vec<TestPosition<u128, 20>> = vec![TestPosition::long(true), TestPosition::long(false), TestPosition::short(true), TestPosition::short(false)];
+    for k in 0..4 {
+        if rnd() % 4 == 0 { continue; }
+        let size = (10 + rnd() % 5000) * UNIT;
+        let col_price = if k % 2 == 0 { index } else { tokp };
+        let col = size / 3 / col_price.max(1) + 1;
+        let saved = market.clone(); let sp = others[k];
+        if others[k].ops(&mut market).increase(prices, col, size, None).and_then(|a| a.execute()).is_err() { market = saved; others[k] = sp; }
+    }
+    let mut out = String::new();
+    for _ in 0..n {
+        let mut m = market.clone();
+        let is_long = rnd() % 2 == 0; let col_long = rnd() % 2 == 0;
+        let mut pos: TestPosition<u128, 20> = if is_long { TestPosition::long(col_long) } else { TestPosition::short(col_long) };
+        let size = match rnd() % 4 { 0 => (2 + rnd() % 50) * UNIT + rnd(), 1 => (1 + rnd() % 100_000) * UNIT, _ => (2 + rnd() % 3000) * UNIT / (1 + rnd() % 7) };
+        let col_price = if col_long { index } else { tokp };
+        let col = size.max(2 * UNIT) / (1 + rnd() % 20) / col_price.max(1) + 1 + rnd() % 3;
+        if pos.ops(&mut m).increase(prices, col, size, None).and_then(|a| a.execute()).is_err() { continue; }
+        let cur = { let o = pos.ops(&mut m); *o.size_in_usd() };
+        let Ok(rep) = pos.ops(&mut m).decrease(prices, cur, None, 0, DecreasePositionFlags::default()).and_then(|a| a.execute()) else { continue };
+        let fu = rep.claimable_collateral_for_user();
+        let (fl, fs) = rep.claimable_funding_amounts();
+        out.push_str(&format!("{} {} {col} {size} | {} {} {} {} | {} {} | {fl} {fs} | {index} {index} {tokp} | {};",
+            is_long, col_long, rep.output_amount(), rep.secondary_output_amount(), rep.is_output_token_long(), rep.is_secondary_output_token_long(),
+            fu.output_token_amount(), fu.secondary_output_token_amount(), rep.should_remove()));
+    }
+    Some(out)
+}
+
 pub fn dispatch(name: &str, a: &[String]) -> Option<String> {
+    if let Some(n) = name.strip_prefix("roundtrip.") {
+        return roundtrip(n, a);
+    }
     if let Some(n) = name.strip_prefix("position.") {
         return position(n, a);
     }
